@@ -44,11 +44,24 @@ def cases(tier, seed):
         yield {"mode": "nested", "i": i}
 
 
+def _roundtrip_atol(tv):
+    """What a round trip through a variable scaler can resolve: a few ulp of its offsets and scales (0 without a scaler)."""
+    if tv is None:
+        return 0.0
+    mags = [1.0]
+    for name in ("_offsets", "_scales"):
+        a = getattr(tv, name, None)
+        if a is not None:
+            mags.append(float(np.max(np.abs(a))))
+    return 1e-14 * max(mags)
+
+
 class Monitor:
     """Evaluator wrapper that checks every row against the current reference of the step that is running."""
 
     def __init__(self, obs, inner_ev, tv=None):
         self.obs, self.ev, self.tv = obs, inner_ev, tv
+        self.atol = _roundtrip_atol(tv)
         self.stack = []          # [{"mask": bool array, "ref": user-domain full vector, "name": str}]
         self.ok = True
         self.after_handoff = False
@@ -64,7 +77,7 @@ class Monitor:
                 self.obs.count("fixed_entries_checked", int(variables.shape[0] * fixed.sum()))
                 ref = cur["ref"][fixed]
                 got = variables[:, fixed]
-                bad = ~np.isclose(got, ref[None, :], rtol=1e-12 if self.tv is not None else 0.0, atol=0.0)
+                bad = ~np.isclose(got, ref[None, :], rtol=1e-12 if self.tv is not None else 0.0, atol=self.atol)
                 if bad.any():
                     r = int(np.argwhere(bad)[0][0])
                     self.obs.violation("fixed_variable_moved_in_evaluator_row", step=cur["name"], row=r, got=variables[r], reference=cur["ref"], mask=cur["mask"],
@@ -123,7 +136,7 @@ def _check_results(obs, results, mask, ref, tv, name):
             vecs.append(("perturbed_variables", pv.reshape(-1, pv.shape[-1])))
         for nm, arr in vecs:
             obs.count("result_vectors_checked", int(arr.shape[0]))
-            if fixed.any() and not np.all(np.isclose(arr[:, fixed], ref[fixed][None, :], rtol=rt, atol=0.0)):
+            if fixed.any() and not np.all(np.isclose(arr[:, fixed], ref[fixed][None, :], rtol=rt, atol=_roundtrip_atol(tv))):
                 obs.violation("fixed_variable_moved_in_result", step=name, field=nm, got=arr[0], reference=ref, mask=mask)
                 return False
         g = getattr(res, "gradients", None)
